@@ -737,8 +737,11 @@ class Run:
             self.log.append(('looperr', exc_tag(ctx.get('exception'))))
         if self.task.done() and not self.task_reported:
             self.task_reported = True
-            e = None if self.task.cancelled() else self.task.exception()
-            self.log.append(('taskfailed', exc_tag(e)) if e is not None else ('taskdone',))
+            if self.task.cancelled():
+                self.log.append(('taskfailed', 'CancelledError'))
+            else:
+                e = self.task.exception()
+                self.log.append(('taskfailed', exc_tag(e)) if e is not None else ('taskdone',))
         for t, kind in self.cb_tasks.items():
             if t.done() and t not in self.cb_reported:
                 self.cb_reported.add(t)
@@ -813,8 +816,9 @@ class Run:
         else:
             fut = ['result', flat_outputs(f.result())]
         if self.task.done():
-            e = None if self.task.cancelled() else self.task.exception()
-            task = 'failed:' + exc_tag(e) if e is not None else 'done'
+            # (a stepping task that ends cancelled did not return normally: a CancelledError escaped from step())
+            task = 'failed:CancelledError' if self.task.cancelled() else \
+                ('failed:' + exc_tag(self.task.exception()) if self.task.exception() is not None else 'done')
         else:
             task = 'live'
         return {
